@@ -30,12 +30,18 @@ func main() {
 	in := bufio.NewReaderSize(os.Stdin, 1<<24)
 	out := bufio.NewWriterSize(os.Stdout, 1<<20)
 	defer out.Flush()
+	// VERIF_FLUSH: one write per answer, so that after a fatal error of the process (stack overflow,
+	// out of memory: not recoverable) the number of answers tells which line killed it
+	flush := os.Getenv("VERIF_FLUSH") != ""
 	for {
 		line, err := in.ReadString('\n')
 		line = strings.TrimRight(line, "\r\n ")
 		if line != "" {
 			out.WriteString(step(line))
 			out.WriteByte('\n')
+			if flush {
+				out.Flush()
+			}
 		}
 		if err != nil {
 			return
